@@ -10,6 +10,9 @@ import Otel.C01.Progress
 import Otel.C01.Spec
 import Otel.C01.HistorySim
 import Otel.C01.Stuck
+import Otel.C01.Timeout
+import Otel.C01.Fifo
+import Otel.C01.Work
 namespace Otel.C01
 
 variable {cap maxB : Nat} {blocking : Bool}
@@ -148,28 +151,33 @@ example : ∃ s, run (init 2 1 false)
 
 /-- some Shutdown call has returned nil, and `pre` is the set of spans whose `End` had returned when THAT call was
 called: the call that won `stopOnce` (`sdRetOk`, `sdPre`) or any of the calls that found the once taken and
-waited in `sync.Once.Do` (`sds`). `Shutdown` contexts that expire are not modelled (no call returns an error). -/
+waited in `sync.Once.Do` (`sds`). A Shutdown context that expires is the label `sdTimeout` (only the winning call can
+return an error: the others wait in `Once.Do`, which has no context); the theorems about nil returns below carry the
+hypothesis `s.sdRetErr = false` (the winning call's context has not expired) — without it they fail for the waiting
+callers: known finding F44, `bsp_shutdown_timeout_late_nil_witness`. -/
 def ShutdownReturnedNil (s : St) (pre : List Nat) : Prop :=
   (s.sdRetOk = true ∧ pre = s.sdPre) ∨ ∃ c ∈ s.sds, c.ret = true ∧ pre = c.pre
 
 /-- whichever Shutdown call has returned nil, the winning call's once-function has returned: the worker has
 exited and the exporter has been shut down -/
 theorem shutdown_returned_done (hpos : 1 ≤ maxB) (s : St) (h : Reachable cap maxB blocking s) (pre : List Nat)
-    (hret : ShutdownReturnedNil s pre) : s.sdRetOk = true ∧ s.sd = .shut ∧ s.w = .exited := by
+    (hret : ShutdownReturnedNil s pre) (hT : s.sdRetErr = false) : s.sdRetOk = true ∧ s.sd = .shut ∧ s.w = .exited := by
   have hi := inv_reachable cap maxB blocking hpos s h
   have hr : s.sdRetOk = true := by
     rcases hret with ⟨hr, _⟩ | ⟨c, hc, hcr, _⟩
     · exact hr
-    · exact hi.l.retDone c hc hcr
+    · rcases hi.l.retDone c hc hcr with h1 | h1
+      · exact h1
+      · rw [hT] at h1; cases h1
   exact ⟨hr, hi.c.retSd hr, hi.c.shutExited (hi.c.retSd hr)⟩
 
 /-- S4 — nothing is exported after ANY `Shutdown` call has returned nil (the call that won `stopOnce` or any
 other): from then on no step changes the exporter's log, and nobody is inside the exporter. -/
 theorem bsp_quiet_after_shutdown (hpos : 1 ≤ maxB) (s s' : St) (l : Lbl) (h : Reachable cap maxB blocking s)
-    (pre : List Nat) (hret : ShutdownReturnedNil s pre) (hs : step s l = some s') :
+    (pre : List Nat) (hret : ShutdownReturnedNil s pre) (hT : s.sdRetErr = false) (hs : step s l = some s') :
     s'.exported = s.exported ∧ s.busy = none ∧ s'.sdRetOk = true ∧ ShutdownReturnedNil s' s'.sdPre := by
   have hc := (inv_reachable cap maxB blocking hpos s h).c
-  obtain ⟨hr, _, hw⟩ := shutdown_returned_done hpos s h pre hret
+  obtain ⟨hr, _, hw⟩ := shutdown_returned_done hpos s h pre hret hT
   have hcl := hc.exitedClean hw
   have key : s'.exported = s.exported ∧ s'.sdRetOk = true := by
     cases l <;> simp only [step] at hs
@@ -189,12 +197,12 @@ worker's drain had seen the queue empty), so it returned after the first Shutdow
 the queue of the exited worker (see `bsp_shutdown_late_call_witness`); (3) spans are dropped only in non-blocking
 mode. For the first call (`pre = s.sdPre`) clause (1) is the full delivery statement. -/
 theorem bsp_shutdown_delivers (hpos : 1 ≤ maxB) (s : St) (h : Reachable cap maxB blocking s)
-    (pre : List Nat) (hret : ShutdownReturnedNil s pre) :
+    (pre : List Nat) (hret : ShutdownReturnedNil s pre) (hT : s.sdRetErr = false) :
     (∀ id ∈ s.sdPre, id ∈ s.exported.flatten ∨ id ∈ s.droppedIds) ∧
     (∀ id ∈ pre, id ∈ s.exported.flatten ∨ id ∈ s.droppedIds ∨ (id ∈ spansOf s.queue ∧ id ∉ s.sdPre)) ∧
     (s.droppedIds ≠ [] → s.blocking = false) := by
   have hi := inv_reachable cap maxB blocking hpos s h
-  obtain ⟨hr, _, hw⟩ := shutdown_returned_done hpos s h pre hret
+  obtain ⟨hr, _, hw⟩ := shutdown_returned_done hpos s h pre hret hT
   have h1 := hi.f.exitedOK hw
   refine ⟨h1, ?_, hi.d.dropNB⟩
   rcases hret with ⟨_, hp⟩ | ⟨c, hc, _, hp⟩
@@ -222,13 +230,13 @@ theorem bsp_shutdown_delivers (hpos : 1 ≤ maxB) (s : St) (h : Reachable cap ma
 (`LateEnd_applies`), every span whose `End` had returned before a Shutdown call — the first or any other — is in
 the exporter's log or was counted as dropped when that call has returned nil. -/
 theorem bsp_shutdown_delivers_every_call_partial (hpos : 1 ≤ maxB) (s : St) (h : Reachable cap maxB blocking s)
-    (pre : List Nat) (hret : ShutdownReturnedNil s pre) (hno : LateEnd_applies s = false) :
+    (pre : List Nat) (hret : ShutdownReturnedNil s pre) (hT : s.sdRetErr = false) (hno : LateEnd_applies s = false) :
     ∀ id ∈ pre, id ∈ s.exported.flatten ∨ id ∈ s.droppedIds := by
-  obtain ⟨_, _, hw⟩ := shutdown_returned_done hpos s h pre hret
+  obtain ⟨_, _, hw⟩ := shutdown_returned_done hpos s h pre hret hT
   have hq : spansOf s.queue = [] := by
     simpa [LateEnd_applies, hw] using hno
   intro id hid
-  rcases (bsp_shutdown_delivers hpos s h pre hret).2.1 id hid with h1 | h1 | h1
+  rcases (bsp_shutdown_delivers hpos s h pre hret hT).2.1 id hid with h1 | h1 | h1
   · exact Or.inl h1
   · exact Or.inr h1
   · rw [hq] at h1; exact absurd h1.1 (by simp)
@@ -238,11 +246,11 @@ own `pre` set is neither in the exporter's log nor counted as dropped, then the 
 (`LateEnd_applies`: a span sits in the exited worker's queue); in the vocabulary of the oracle: if
 `Spec.delivered` fails for that call's own `pre` set, with any reported counter covering the model's drops. -/
 theorem bsp_shutdown_missing_implies_late (hpos : 1 ≤ maxB) (s : St) (h : Reachable cap maxB blocking s)
-    (pre : List Nat) (hret : ShutdownReturnedNil s pre) :
+    (pre : List Nat) (hret : ShutdownReturnedNil s pre) (hT : s.sdRetErr = false) :
     ((∃ id ∈ pre, ¬ (id ∈ s.exported.flatten ∨ id ∈ s.droppedIds)) → LateEnd_applies s = true) ∧
     (∀ dropped, s.droppedIds.length ≤ dropped → Spec.delivered s.blocking pre s.exported dropped = false →
       LateEnd_applies s = true) := by
-  have hpart := bsp_shutdown_delivers_every_call_partial hpos s h pre hret
+  have hpart := bsp_shutdown_delivers_every_call_partial hpos s h pre hret hT
   have hi := inv_reachable cap maxB blocking hpos s h
   constructor
   · intro ⟨id, hid, hmiss⟩
@@ -260,7 +268,7 @@ theorem bsp_shutdown_missing_implies_late (hpos : 1 ≤ maxB) (s : St) (h : Reac
 /-- the full statement of S5 for every Shutdown call (each call's own `pre`, without the exclusion) — NOT a
 theorem of the current code (known finding F41), see the witness below -/
 def bsp_shutdown_delivers_every_call_full_statement : Prop :=
-  ∀ (cap maxB : Nat) (blocking : Bool), 1 ≤ maxB → ∀ s, Reachable cap maxB blocking s →
+  ∀ (cap maxB : Nat) (blocking : Bool), 1 ≤ maxB → ∀ s, Reachable cap maxB blocking s → s.sdRetErr = false →
     ∀ pre, ShutdownReturnedNil s pre → ∀ id ∈ pre, id ∈ s.exported.flatten ∨ id ∈ s.droppedIds
 
 /-- the schedule of the late-span race F41: `OnEnd` of span 1 passes the `stopped` check, a first Shutdown runs to
@@ -271,7 +279,7 @@ def lateEndSchedule : List Lbl :=
    .send 1, .sdCallLate 1, .sdReturnLate 1]
 
 theorem bsp_shutdown_late_call_witness :
-    ∃ s, run (init 4 1 false) lateEndSchedule = some s ∧ LateEnd_applies s = true ∧
+    ∃ s, run (init 4 1 false) lateEndSchedule = some s ∧ LateEnd_applies s = true ∧ s.sdRetErr = false ∧
       ∃ c ∈ s.sds, c.ret = true ∧ ∃ id ∈ c.pre, ¬ (id ∈ s.exported.flatten ∨ id ∈ s.droppedIds) := by
   refine ⟨_, rfl, ?_⟩
   decide
@@ -281,9 +289,9 @@ yet returned, some internal step is enabled (a step of the worker or of the shut
 of the exporter call in progress): Shutdown never waits for something that cannot happen. The exporter is
 assumed to return eventually; fairness (hence termination) is not claimed. -/
 theorem bsp_shutdown_never_stuck (hpos : 1 ≤ maxB) (s : St) (h : Reachable cap maxB blocking s)
-    (hsd : s.sd ≠ .none) (hret : s.sdRetOk = false) :
+    (hsd : s.sd ≠ .none) (hret : s.sdRetOk = false) (hrete : s.sdRetErr = false) :
     ∃ l, l.internal = true ∧ (step s l).isSome = true :=
-  shutdown_progress_of_inv s (inv_reachable cap maxB blocking hpos s h).c hsd hret
+  shutdown_progress_of_inv s (inv_reachable cap maxB blocking hpos s h).c hsd hret hrete
 
 /-- the same for every Shutdown call that did not win `stopOnce`: while it is blocked in `sync.Once.Do` some
 internal step is enabled — of the winner's call, or its own return once the once is done. -/
@@ -429,9 +437,9 @@ theorem bsp_forceflush_full_statement_refuted : ¬ bsp_forceflush_delivers_full_
 /-- hence the full every-call statement of S5 for Shutdown is false for the model of the current code -/
 theorem bsp_shutdown_every_call_full_statement_refuted : ¬ bsp_shutdown_delivers_every_call_full_statement := by
   intro hfull
-  obtain ⟨s, hrun, _, c, hc, hcr, id, hid, hno⟩ := bsp_shutdown_late_call_witness
+  obtain ⟨s, hrun, _, hT, c, hc, hcr, id, hid, hno⟩ := bsp_shutdown_late_call_witness
   have hreach : Reachable 4 1 false s := run_reachable _ _ _ Reachable.init hrun
-  exact hno (hfull 4 1 false (by omega) s hreach c.pre (Or.inr ⟨c, hc, hcr, rfl⟩) id hid)
+  exact hno (hfull 4 1 false (by omega) s hreach hT c.pre (Or.inr ⟨c, hc, hcr, rfl⟩) id hid)
 
 /-- non-vacuity: a reachable state with two exports (one by the worker because the batch is full, one by
 a ForceFlush that returned nil normally), one dropped span and a completed Shutdown. -/
@@ -461,10 +469,11 @@ empty**, and its F22 flag is raised only if Shutdown has been called and some Fo
 `dropped` is the value of the processor's dropped counter reported at the end of the run: any number that is at
 least the number of spans the model dropped. -/
 theorem bsp_model_history_simulation (hpos : 1 ≤ maxB) (s : St) (h : List Spec.Ev)
-    (hr : ReachableH cap maxB blocking s h) (dropped : Nat) (hd : s.droppedIds.length ≤ dropped) :
+    (hr : ReachableH cap maxB blocking s h) (dropped : Nat) (hd : s.droppedIds.length ≤ dropped)
+    (hT : s.sdRetErr = false) :
     Sim s (h.foldl (Spec.scanStep s.blocking dropped) {}) := by
   rw [(reachable_cfg hr.reachable).2.2]
-  exact sim_reachableH hpos dropped s h hr hd
+  exact sim_reachableH hpos dropped s h hr hd hT
 
 /-- S1–S6 at the level of histories — every history `h` the model can produce passes the very oracle
 `Spec.histCheck` that judges the histories recorded from the real code: the list of violated clauses is empty.
@@ -474,9 +483,10 @@ at the end of the run (any value ≥ the number of spans the model dropped; the 
 ids whose `End` returned); `allUnsampled := s.unsampled` = every unsampled span id whose `End` returned;
 `h` = the history. -/
 theorem bsp_model_history_passes_oracle (hpos : 1 ≤ maxB) (s : St) (h : List Spec.Ev)
-    (hr : ReachableH cap maxB blocking s h) (dropped : Nat) (hd : s.droppedIds.length ≤ dropped) :
+    (hr : ReachableH cap maxB blocking s h) (dropped : Nat) (hd : s.droppedIds.length ≤ dropped)
+    (hT : s.sdRetErr = false) :
     (Spec.histCheck s.maxB s.blocking dropped s.accepted s.unsampled h).1 = [] := by
-  have hsim := bsp_model_history_simulation hpos s h hr dropped hd
+  have hsim := bsp_model_history_simulation hpos s h hr dropped hd hT
   have hreach := hr.reachable
   have h1 := bsp_no_duplicate hpos s hreach
   have h2 := bsp_batch_bound hpos s hreach
@@ -489,9 +499,10 @@ ended sampled / unsampled ids are read off the history itself, so S6 is judged a
 only — every exported span has an `ended` event in the history, and no exported span has an `endedUnsampled`
 event (histories with unsampled spans included). -/
 theorem bsp_model_history_passes_driver_oracle (hpos : 1 ≤ maxB) (s : St) (h : List Spec.Ev)
-    (hr : ReachableH cap maxB blocking s h) (dropped : Nat) (hd : s.droppedIds.length ≤ dropped) :
+    (hr : ReachableH cap maxB blocking s h) (dropped : Nat) (hd : s.droppedIds.length ≤ dropped)
+    (hT : s.sdRetErr = false) :
     (Spec.histJudge s.maxB s.blocking dropped h).1 = [] := by
-  have hsim := bsp_model_history_simulation hpos s h hr dropped hd
+  have hsim := bsp_model_history_simulation hpos s h hr dropped hd hT
   have hreach := hr.reachable
   have h1 := bsp_no_duplicate hpos s hreach
   have h2 := bsp_batch_bound hpos s hreach
@@ -516,10 +527,10 @@ the model took one of ForceFlush's two early exits (`F22_applies`). All other Fo
 delivery check (previous theorems). -/
 theorem bsp_model_history_f22_only_with_shutdown (hpos : 1 ≤ maxB) (s : St) (h : List Spec.Ev)
     (hr : ReachableH cap maxB blocking s h) (dropped : Nat) (hd : s.droppedIds.length ≤ dropped)
-    (allEnded allUnsampled : List Nat)
+    (hT : s.sdRetErr = false) (allEnded allUnsampled : List Nat)
     (hf : (Spec.histCheck s.maxB s.blocking dropped allEnded allUnsampled h).2 = true) :
     Spec.Ev.sdCalled ∈ h ∧ ∃ f ∈ s.ffs, F22_applies f = true := by
-  have hsim := bsp_model_history_simulation hpos s h hr dropped hd
+  have hsim := bsp_model_history_simulation hpos s h hr dropped hd hT
   simp only [Spec.histCheck] at hf
   refine ⟨?_, ?_⟩
   · rcases scan_sdCalled _ _ h {} (hsim.f22 hf) with hc | hc
@@ -535,8 +546,9 @@ other nil returns of Shutdown calls pass the own-`pre` delivery check, and no vi
 (`bsp_model_history_passes_driver_oracle`). -/
 theorem bsp_model_history_f41_only_late (hpos : 1 ≤ maxB) (s : St) (h : List Spec.Ev)
     (hr : ReachableH cap maxB blocking s h) (dropped : Nat) (hd : s.droppedIds.length ≤ dropped)
+    (hT : s.sdRetErr = false)
     (hf : Spec.histF41 s.blocking dropped h = true) : LateEnd_applies s = true := by
-  have hfull := fullSim_reachableH hpos dropped s h hr hd
+  have hfull := fullSim_reachableH hpos dropped s h hr hd hT
   rw [← (reachable_cfg hr.reachable).2.2] at hfull
   exact hfull.f41 hf
 
@@ -644,6 +656,248 @@ example : ∃ r, runH (init 4 1 false) [] f22Schedule = some r ∧
     r.2 = [.ended 1, .ended 2, .exportStart [1], .sdCalled, .ffCalled 7, .ffReturned 7 true] ∧
     Spec.histJudge 1 false 0 r.2 = ([], true) := by
   refine ⟨_, rfl, ?_⟩
+  decide
+
+/-! ### Shutdown with a context that ends (label `sdTimeout`)
+
+`Shutdown(ctx)`: the call that wins `stopOnce` stores `stopped`, starts the shutdown goroutine (close(stopCh); join the
+worker; exporter.Shutdown; close(wait)) and waits in `select { case <-wait: case <-ctx.Done(): err = ctx.Err() }`. If
+the context wins, the once-function returns, the call returns ctx.Err() — and the goroutine goes on. The safety
+theorems above (S1, S2, S3, S6, conservation, unsampled, failed exports) are about every reachable state, hence cover
+those runs as they are; the theorems below are about what is specific to them. -/
+
+/-- `stopped` is stored before the winning call reaches its `select` -/
+private theorem invT_reachable {s : St} (hr : Reachable cap maxB blocking s) :
+    (s.sd = .stored ∨ s.sd = .closed ∨ s.sd = .shut) → s.stopped = true := by
+  induction hr with
+  | init => simp [init]
+  | step l _ hs ih =>
+    rename_i s0 s1
+    cases l <;> simp only [step] at hs
+    all_goals (
+      repeat' (split at hs)
+      all_goals (try (simp at hs))
+      all_goals (try subst hs)
+      all_goals (first | exact ih | simp_all))
+
+/-- the winning Shutdown call returns exactly once — nil (`sdRetOk`) or its context's error (`sdRetErr`), never both —
+and an error return happens only after `stopped` was stored: from then on no `OnEnd` is accepted any more (the label
+`accept` is disabled), although the drain may still be running. -/
+theorem bsp_shutdown_timeout_exclusive (hpos : 1 ≤ maxB) (s : St) (h : Reachable cap maxB blocking s) :
+    ¬ (s.sdRetOk = true ∧ s.sdRetErr = true) ∧
+    (ShutdownTimedOut_applies s = true → s.stopped = true ∧ ∀ id, step s (.accept id) = none) := by
+  have hc := (inv_reachable cap maxB blocking hpos s h).c
+  refine ⟨fun ⟨h1, h2⟩ => (by rw [hc.okErr h1] at h2; cases h2), ?_⟩
+  intro hT
+  have hst := invT_reachable h (hc.errSd hT)
+  exact ⟨hst, fun id => by simp [step, hst]⟩
+
+/-- the shutdown goroutine never waits for something that cannot happen, whether or not the call that started it is
+still waiting for it (in particular after that call returned its context's error): as long as Shutdown has been called
+and the exporter has not been shut down, some internal step other than a return of the Shutdown call is enabled — a
+step of the worker, of the goroutine, or the return of the exporter call in progress (assumed to return). -/
+theorem bsp_shutdown_drain_never_stuck (hpos : 1 ≤ maxB) (s : St) (h : Reachable cap maxB blocking s)
+    (hsd : s.sd ≠ .none) (hshut : s.sd ≠ .shut) :
+    ∃ l, l.internal = true ∧ l ≠ .sdReturnOk ∧ l ≠ .sdTimeout ∧ (step s l).isSome = true :=
+  drain_progress_of_inv s (inv_reachable cap maxB blocking hpos s h).c hsd hshut
+
+/-- when the shutdown goroutine has finished (`sd = shut`: the worker joined, the exporter shut down) — whatever the
+Shutdown calls have returned, in particular after the winning call returned ctx.Err() — the worker has exited, every
+span whose `End` had returned before the first Shutdown call was called is in the exporter's log or was counted as
+dropped, and from then on no step changes the exporter's log, nobody is inside the exporter, and the phase stays. The
+spans lost by a Shutdown whose context ended are at most the late spans of F41. -/
+theorem bsp_shutdown_drain_done (hpos : 1 ≤ maxB) (s : St) (h : Reachable cap maxB blocking s) (hshut : s.sd = .shut) :
+    s.w = .exited ∧ (∀ id ∈ s.sdPre, id ∈ s.exported.flatten ∨ id ∈ s.droppedIds) ∧ s.busy = none ∧
+    ∀ l s', step s l = some s' → s'.exported = s.exported ∧ s'.sd = .shut := by
+  have hi := inv_reachable cap maxB blocking hpos s h
+  have hw := hi.c.shutExited hshut
+  have hcl := hi.c.exitedClean hw
+  refine ⟨hw, hi.f.exitedOK hw, hcl.2.1, ?_⟩
+  intro l s' hs
+  cases l <;> simp only [step] at hs
+  all_goals (
+    repeat' (split at hs)
+    all_goals (try (simp at hs))
+    all_goals (try subst hs)
+    all_goals (first | exact ⟨rfl, hshut⟩ | simp_all))
+
+/-- the schedule of F44: span 1 is queued, a Shutdown call wins `stopOnce`, stores `stopped`, and its context ends at
+once (`sdTimeout`: it returns ctx.Err()); a second Shutdown call finds the once done and returns nil immediately; only
+then does the goroutine of the first call close `stopCh`, and the worker exports span 1. -/
+def timeoutLateNilSchedule : List Lbl :=
+  [.accept 1, .send 1, .sdCall, .sdStore, .sdTimeout, .sdCallLate 1, .sdReturnLate 1,
+   .sdClose, .wStop, .wRecv, .wAppend, .wExportStart]
+
+/-- known finding F44 (witness): after the winning Shutdown call's context ended, another Shutdown call returns nil
+(`ShutdownReturnedNil`) although span 1 — ended before either call — has not been handed to the exporter, and the
+exporter is entered afterwards. -/
+theorem bsp_shutdown_timeout_late_nil_witness :
+    ∃ s s', run (init 4 1 false) (timeoutLateNilSchedule.take 7) = some s ∧
+      run (init 4 1 false) timeoutLateNilSchedule = some s' ∧
+      ShutdownTimedOut_applies s = true ∧ ShutdownReturnedNil s [1] ∧ s.exported = [] ∧ s.droppedIds = [] ∧
+      s.w = .run ∧ s'.exported = [[1]] ∧ s'.busy = some .worker := by
+  refine ⟨_, _, rfl, rfl, ?_⟩
+  refine ⟨by decide, Or.inr ⟨⟨1, [1], true⟩, by decide, rfl, rfl⟩, by decide, by decide, by decide, by decide, by decide⟩
+
+/-- S4 and S5 for every nil return of a Shutdown call, without the hypothesis that the winning call's context did not
+end — NOT a theorem of the current code (known finding F44) -/
+def bsp_shutdown_nil_return_full_statement : Prop :=
+  ∀ (cap maxB : Nat) (blocking : Bool), 1 ≤ maxB → ∀ s, Reachable cap maxB blocking s →
+    ∀ pre, ShutdownReturnedNil s pre → s.w = .exited ∧ ∀ id ∈ s.sdPre, id ∈ s.exported.flatten ∨ id ∈ s.droppedIds
+
+theorem bsp_shutdown_nil_return_full_statement_refuted : ¬ bsp_shutdown_nil_return_full_statement := by
+  intro hfull
+  obtain ⟨s, _, hrun, _, _, hret, _, _, hw, _, _⟩ := bsp_shutdown_timeout_late_nil_witness
+  have hreach : Reachable 4 1 false s := run_reachable _ _ _ Reachable.init hrun
+  have h1 := (hfull 4 1 false (by omega) s hreach [1] hret).1
+  rw [hw] at h1
+  cases h1
+
+/-- the F44 classification is tight: a Shutdown call other than the winner returns nil before the winner's once-function
+has returned nil only if the winner's context has ended (`ShutdownTimedOut_applies`) — otherwise every nil return has
+all the guarantees (`shutdown_returned_done`, `bsp_quiet_after_shutdown`, `bsp_shutdown_delivers`). -/
+theorem bsp_shutdown_early_nil_implies_timeout (hpos : 1 ≤ maxB) (s : St) (h : Reachable cap maxB blocking s)
+    (pre : List Nat) (hret : ShutdownReturnedNil s pre) (hnot : s.sdRetOk = false) :
+    ShutdownTimedOut_applies s = true := by
+  have hi := inv_reachable cap maxB blocking hpos s h
+  rcases hret with ⟨hr, _⟩ | ⟨c, hc, hcr, _⟩
+  · rw [hnot] at hr; cases hr
+  · rcases hi.l.retDone c hc hcr with h1 | h1
+    · rw [hnot] at h1; cases h1
+    · exact h1
+
+/-- non-vacuity: the winning call's context ends while the worker is inside the exporter; the goroutine goes on, the
+drain completes, both spans are delivered, the exporter is shut down; a Shutdown call made after that returns nil. -/
+example : ∃ s, run (init 4 1 false)
+    [.accept 1, .send 1, .accept 2, .send 2, .wRecv, .wAppend, .wExportStart, .sdCall, .sdStore, .sdClose, .sdTimeout,
+     .exportEnd true, .wStop, .wRecv, .wAppend, .wExportStart, .exportEnd false, .wDrainEmpty, .wExportStart,
+     .sdExporterShutdown, .sdCallLate 1, .sdReturnLate 1] = some s ∧
+    s.exported = [[1], [2]] ∧ s.sd = .shut ∧ s.sdRetErr = true ∧ s.sdRetOk = false ∧
+    step s .sdReturnOk = none ∧ s.sds = [⟨1, [2, 1], true⟩] := by
+  refine ⟨_, rfl, ?_⟩
+  decide
+
+/-! ### Refinement: the processor behaves like a bounded FIFO buffer with a drop counter -/
+
+/-- refinement — seen through the abstraction `absF` (buffer = batch ++ the worker's hand ++ the spans of the queue,
+oldest first; output = the exporter's log; the dropped ids; `pushed` = the ghost order of the successful queue sends),
+every step of the LTS — any thread, any interleaving, the whole ForceFlush / Shutdown / timeout protocol — is a step of
+the specification `Spec.fifoStep` (SpecFifo.lean: nothing / a span enters the buffer / a span is dropped, only in
+non-blocking mode / the oldest `k ≤ maxB` spans leave as one batch), and every reachable state maps to a reachable
+state of the specification. -/
+theorem bsp_refines_fifo (hpos : 1 ≤ maxB) (s : St) (h : Reachable cap maxB blocking s) :
+    Spec.FifoReach cap maxB blocking (absF s) ∧
+    ∀ l s', step s l = some s' → Spec.fifoStep cap maxB blocking (absF s) (absF s') := by
+  refine ⟨refines_reachable hpos h, ?_⟩
+  intro l s' hs
+  have hcfg := reachable_cfg h
+  have := refines_step s s' l (inv_reachable cap maxB blocking hpos s h).b (invQ_reachable h) hs
+  rw [hcfg.1, hcfg.2.1, hcfg.2.2] at this
+  exact this
+
+/-- first in, first out — obtained from the specification alone (`Spec.fifoReach_facts`) through the refinement: in
+every reachable state the exporter's log, followed by the batch, the worker's hand and the spans of the queue, is
+exactly the sequence of spans in the order of their successful queue sends: no span overtakes another, none is lost or
+duplicated on the way; no export batch is empty or larger than `maxB`; at most `cap + maxB + 1` spans are buffered. -/
+theorem bsp_fifo_order (hpos : 1 ≤ maxB) (s : St) (h : Reachable cap maxB blocking s) :
+    s.exported.flatten ++ (s.batch ++ handL s.hand ++ spansOf s.queue) = s.sent ∧
+    (∀ b ∈ s.exported, 1 ≤ b.length ∧ b.length ≤ maxB) ∧
+    (s.batch ++ handL s.hand ++ spansOf s.queue).length ≤ cap + maxB + 1 :=
+  let f := Spec.fifoReach_facts (refines_reachable hpos h)
+  ⟨f.1, f.2.1, f.2.2.1⟩
+
+/-- bounded buffer with drop — the `send` step of an `OnEnd` (`enqueueDrop` / `enqueueBlockOnQueueFull`): if the queue
+channel has a free slot the span is appended to it and nothing is counted; the dropped counter moves only when the
+channel is full and the processor is in non-blocking mode, and then by exactly this span. (A flush marker occupies a
+slot of the channel like a span: "full" is about the channel, not about the number of spans.) -/
+theorem bsp_drop_only_when_queue_full (s s' : St) (id : Nat) (hs : step s (.send id) = some s') :
+    (s.queue.length < s.cap → s'.queue = s.queue ++ [.span id] ∧ s'.droppedIds = s.droppedIds) ∧
+    (s'.droppedIds ≠ s.droppedIds →
+      s.cap ≤ s.queue.length ∧ s.blocking = false ∧ s'.droppedIds = id :: s.droppedIds ∧ s'.queue = s.queue) := by
+  simp only [step] at hs
+  repeat' (split at hs)
+  all_goals (try (simp at hs))
+  all_goals (try subst hs)
+  all_goals (constructor <;> intro h1 <;> simp_all <;> omega)
+
+/-- non-vacuity: `demoSchedule` — three spans entered the buffer in the order 1, 2, 4 (span 3 was dropped) and left it
+in that order. -/
+example : ∃ s, run (init 2 2 false) demoSchedule = some s ∧ s.sent = [1, 2, 4] ∧ s.exported.flatten = [1, 2, 4] ∧
+    (absF s).dropped = [3] := by
+  refine ⟨_, rfl, ?_⟩
+  decide
+
+/-! ### Liveness under explicit fairness hypotheses, in quantitative form -/
+
+/-- the worker's work is bounded by the offered load — for EVERY run of the LTS from a reachable state (every
+interleaving of every thread, timers, cancellations, Shutdown): the number of disciplined worker-side steps taken in
+the run (`fairCount`: the steps of the worker goroutine and the returns of exporter calls; a firing of the batch timer
+counts only when the queue is empty and the batch is not) plus the remaining potential is at most the initial
+potential `workPot s` plus the load offered during the run (`loadSum`: 5 per span or flush marker that enters the
+queue, 1 per export made by a ForceFlush, 2 per firing of the timer while the worker had something else to do). So, under
+the fairness hypotheses (i) the worker and the exporter keep taking steps and (ii) the timer does not fire for ever
+between two receives (in the program it fires once per BatchTimeout), a run in which the other threads stop offering
+work contains only finitely many worker steps: it reaches a state in which none is enabled — and that state is
+characterised by `bsp_worker_quiescent_delivered`. -/
+theorem bsp_worker_work_bounded (hpos : 1 ≤ maxB) (s s' : St) (ls : List Lbl) (h : Reachable cap maxB blocking s)
+    (hr : run s ls = some s') :
+    workPot s' + fairCount s ls ≤ workPot s + loadSum s ls :=
+  work_run s s' ls (inv_reachable cap maxB blocking hpos s h) hr
+
+/-- every accepted span is eventually exported or dropped if the worker keeps taking steps — the end point: in a
+reachable state in which no disciplined worker-side step is enabled (`WorkerQuiescent`: the worker has done everything
+it can do), either the worker sits in `processQueue` with the queue, its hand and the batch empty, nobody inside the
+exporter and `stopCh` open, and EVERY span whose `End` has returned is in the exporter's log or was counted as dropped;
+or the worker has exited (after a Shutdown), and every such span is in the exporter's log, counted as dropped, or a late
+span left in the queue (known finding F41). -/
+theorem bsp_worker_quiescent_delivered (hpos : 1 ≤ maxB) (s : St) (h : Reachable cap maxB blocking s)
+    (hq : WorkerQuiescent s) :
+    (s.w = .run ∧ s.queue = [] ∧ s.busy = none ∧
+      ∀ id ∈ s.seen, id ∈ s.exported.flatten ∨ id ∈ s.droppedIds) ∨
+    (s.w = .exited ∧ s.busy = none ∧
+      ∀ id ∈ s.seen, id ∈ s.exported.flatten ∨ id ∈ s.droppedIds ∨ (LateEnd_applies s = true ∧ id ∈ spansOf s.queue)) := by
+  have hi := inv_reachable cap maxB blocking hpos s h
+  rcases quiescent_shape s hi.c hq with ⟨hw, hqu, hh, hb, hbz, _⟩ | ⟨hw, hbz⟩
+  · left
+    refine ⟨hw, hqu, hbz, ?_⟩
+    intro id hid
+    have hpl := hi.d.seenPlaced id hid
+    unfold placed at hpl
+    simpa [hqu, hh, hb, spansOf, handL] using hpl
+  · right
+    refine ⟨hw, hbz, ?_⟩
+    intro id hid
+    have hcl := hi.c.exitedClean hw
+    have hpl := hi.d.seenPlaced id hid
+    unfold placed at hpl
+    simp only [hcl.1, hcl.2.2, handL, List.not_mem_nil, false_or] at hpl
+    rcases hpl with h1 | h1 | h1
+    · refine Or.inr (Or.inr ⟨?_, h1⟩)
+      have hne : spansOf s.queue ≠ [] := List.ne_nil_of_mem h1
+      simp [LateEnd_applies, hw, hne]
+    · exact Or.inl h1
+    · exact Or.inr (Or.inl h1)
+
+/-- with no load offered the worker finishes within `workPot s` steps: a run that consists of disciplined worker-side
+steps only has length at most `workPot s` (no livelock of the worker under the timer discipline). -/
+theorem bsp_worker_terminates (hpos : 1 ≤ maxB) (s s' : St) (ls : List Lbl) (h : Reachable cap maxB blocking s)
+    (hr : run s ls = some s') (hfair : fairCount s ls = ls.length) (hload : loadSum s ls = 0) :
+    ls.length ≤ workPot s := by
+  have := bsp_worker_work_bounded hpos s s' ls h hr
+  omega
+
+/-- non-vacuity: three queued spans, batch size 2: the worker alone (receive, append, receive, append, export, return,
+receive, append, timer, export, return — 11 disciplined steps, no load, potential 21) reaches a quiescent state with
+everything exported. -/
+example : ∃ s s', run (init 4 2 false) [.accept 1, .send 1, .accept 2, .send 2, .accept 3, .send 3] = some s ∧
+    run s [.wRecv, .wAppend, .wRecv, .wAppend, .wExportStart, .exportEnd true, .wRecv, .wAppend, .wTimer,
+           .wExportStart, .exportEnd false] = some s' ∧
+    workPot s = 21 ∧ workPot s' = 6 ∧ s'.exported = [[1, 2], [3]] ∧ s'.queue = [] ∧ s'.batch = [] ∧
+    fairCount s [.wRecv, .wAppend, .wRecv, .wAppend, .wExportStart, .exportEnd true, .wRecv, .wAppend, .wTimer,
+           .wExportStart, .exportEnd false] = 11 ∧
+    loadSum s [.wRecv, .wAppend, .wRecv, .wAppend, .wExportStart, .exportEnd true, .wRecv, .wAppend, .wTimer,
+           .wExportStart, .exportEnd false] = 0 := by
+  refine ⟨_, _, rfl, rfl, ?_⟩
   decide
 
 end Otel.C01
